@@ -1,5 +1,5 @@
 """C09 - all seeding routes agree: seed_from_u64, from_rng and try_from_rng."""
-from .. import terms as T, alg, sq
+from .. import terms as T, sq, alg
 from ..harness import (Crate, State, Ref, ArrV, Struct, EnumV, OpaqueV, flat_leaves, Anchor, Unsupported, SymbolicLoop, Diverged,
                        symbolic_args, same_value, synth_call, ref_ty, ty_id)
 from ..ref import xoshiro as REF
@@ -111,6 +111,8 @@ def _from_call(leaf, call):
 
 
 def check_isaac(chk, crate, core_ident, w, init_def):
+    init_def = sq.find_fn(crate, init_def, r"fn\(\[.*; \w+\], u32\) -> .*", scope=init_def.rsplit("::", 1)[0])
+    init_name = "::" + init_def.split("::")[-1]
     g = Gen(crate, core_ident)
     n = 256
     # ---- R3 seed_from_u64
@@ -122,7 +124,7 @@ def check_isaac(chk, crate, core_ident, w, init_def):
     st = State()
     x = T.sym("x", 64)
     ret = ev.call_body(st, key, [x])
-    inits = [c for c in ev.calls if c[1].endswith("::init")]
+    inits = [c for c in ev.calls if c[1].endswith(init_name)]
     ok = len(inits) == 1
     if ok:
         arr, rounds = inits[0][5][0], inits[0][5][1]
@@ -145,7 +147,7 @@ def check_isaac(chk, crate, core_ident, w, init_def):
     leaves = []
     seed = ev.symbolic(body2["locals"][1], "seed", leaves)
     ev.call_body(st, key2, [seed])
-    inits = [c for c in ev.calls if c[1].endswith("::init")]
+    inits = [c for c in ev.calls if c[1].endswith(init_name)]
     ok = len(inits) == 1
     if ok:
         arr, rounds = inits[0][5][0], inits[0][5][1]
@@ -172,7 +174,7 @@ def check_isaac(chk, crate, core_ident, w, init_def):
             chk.ob("R4", "%s::%s" % (core_ident, m), False, "not established: %s" % e, where=body["span"][0])
             continue
         fills = [c for c in ev.calls if c[1].split("::")[-1] in ("fill_bytes", "try_fill_bytes")]
-        inits = [c for c in ev.calls if c[1].endswith("::init")]
+        inits = [c for c in ev.calls if c[1].endswith(init_name)]
         res[m] = (ret, fills, inits, body, ev)
     if len(res) == 2:
         nbytes = n * w // 8
